@@ -200,6 +200,39 @@ def _ground_table(case, tab, tag, res):
             res['discharged'] += 1
         else:
             res['violations'].append(dict(case=case.name, claim=('nan_beyond_range[%s|' + tag + ']') % smbl, values={}, observed=[vn, 'nan'], how='concrete'))
+    # independent reading of the DABAX file: '#S <n> <label>' ... first data line = a1..a5 c b1..b5
+    from periodictable import core as _core
+    import os as _os
+    text = open(_os.path.join(_core.get_data_path('xsf'), 'f0_WaasKirf.dat')).read()
+    dabax = {}
+    for blk in re.split(r'^#S\s+', text, flags=re.M)[1:]:
+        lines = blk.split('\n')
+        label = lines[0].split()[1]
+        row = next(l for l in lines[1:] if l.strip() and not l.startswith('#'))
+        v = [float(x) for x in row.split()]
+        dabax[label] = (v[0:5], v[5], v[6:11])
+
+    def f0_file(label, Q):
+        a, c, b = dabax[label]
+        s2 = (Q / (4 * math.pi)) ** 2
+        return sum(ai * math.exp(-bi * s2) for ai, bi in zip(a, b)) + c
+    res['claims'] += 1
+    if set(dabax) == set(cromermann._cmformulas) and len(dabax) >= 200:
+        res['discharged'] += 1
+    else:
+        res['violations'].append(dict(case=case.name, claim='cromer_mann_entries_are_the_file_entries|' + tag, values={},
+                                      observed=[repr(sorted(set(dabax) ^ set(cromermann._cmformulas)))[:200], 'same labels'], how='concrete'))
+    for label in dabax:
+        if label not in cromermann._cmformulas:
+            continue
+        for Q in (0.0, 1.5, 7.0, 20.0):
+            res['claims'] += 1
+            got = float(cromermann.getCMformula(label).atstol(Q / (4 * math.pi)))
+            want = f0_file(label, Q)
+            if abs(got - want) <= 1e-9 * max(1.0, abs(want)):
+                res['discharged'] += 1
+            else:
+                res['violations'].append(dict(case=case.name, claim=('f0_of_file_entry[%s|' + tag + ']') % label, values={'Q': Q}, observed=[got, want], how='concrete'))
     # the same entries reached through the public per-ion API: element.ion[q].xray.f0(Q)
     n_api = 0
     for smbl, f in cromermann._cmformulas.items():
@@ -218,7 +251,7 @@ def _ground_table(case, tab, tag, res):
             res['claims'] += 1
             n_api += 1
             got = float(atom.xray.f0(Q))
-            want = float(f.atstol(Q / (4 * math.pi)))
+            want = f0_file(smbl, Q) if smbl in dabax else float(f.atstol(Q / (4 * math.pi)))
             if abs(got - want) <= 1e-9 * max(1.0, abs(want)):
                 res['discharged'] += 1
             else:
